@@ -40,10 +40,32 @@ pub fn via_builder(s: &Scenario, order: EdgeOrder, dup_terms: bool, defaults: bo
             EdgeOrder::Reversed => edges.reverse(),
             EdgeOrder::Shuffled(seed) => Rng::new(seed).shuffle(&mut edges),
         }
+        // in the `dup_terms` variant the client also makes calls that the Builder must REJECT (a term that does not exist):
+        // they return an error and leave no trace - the ontology is the one of the accepted calls
+        let absent = [4242u32, 5_555_555, 77].into_iter().find(|x| !s.terms.iter().any(|t| t.id == *x)).unwrap_or(9_000_001);
+        if dup_terms {
+            for t in s.terms.iter().take(2) {
+                if b.add_parent(t.id, absent).is_ok() || b.add_parent(absent, t.id).is_ok() {
+                    return Err(format!("add_parent with the absent term {absent} was accepted"));
+                }
+            }
+        }
         for (p, c) in edges {
             b.add_parent(p, c).map_err(|e| format!("add_parent({p},{c}): {e}"))?;
         }
         let mut b = b.connect_all_terms();
+        if dup_terms {
+            for f in s.facts.iter().take(2) {
+                let r = match f.kind {
+                    Kind::Gene => b.annotate_gene(GeneId::from(f.x + 1000), "rejected", HpoTermId::from(absent)),
+                    Kind::Omim => b.annotate_omim_disease(OmimDiseaseId::from(f.x + 1000), "rejected", HpoTermId::from(absent)),
+                    Kind::Orpha => b.annotate_orpha_disease(OrphaDiseaseId::from(f.x + 1000), "rejected", HpoTermId::from(absent)),
+                };
+                if r.is_ok() {
+                    return Err(format!("annotate_* on the absent term {absent} was accepted"));
+                }
+            }
+        }
         for f in &s.facts {
             match (f.kind, f.term) {
                 (Kind::Gene, None) => b.add_gene(&f.name, GeneId::from(f.x)),
